@@ -35,7 +35,9 @@ FB2 = ("BEGIN:VCALENDAR\r\nVERSION:2.0\r\nPRODID:-//xv//EN\r\nBEGIN:VFREEBUSY\r\
        "FREEBUSY:20200310T100000Z/20200310T120000Z\r\nFREEBUSY;FBTYPE=BUSY:20200311T090000Z/PT1H\r\nEND:VFREEBUSY\r\nEND:VCALENDAR\r\n").encode()
 # properties that are present but "falsy": an empty text value and a zero integer
 EFALSY = B.ics("efalsy", "falsy", extra="LOCATION:\nPRIORITY:0\nSEQUENCE:0", dtstart="20200107T100000Z")
-BODIES = {"E1": E1, "E2": E2, "E3": E3, "T1": T1, "ETZ": ETZ, "FB2": FB2, "EF": EFALSY}
+# floating times (no TZID, no Z): they are read in the time zone of the query
+EFL = B.ics("efl", "floating", extra="DTEND:20200410T110000", dtstart="20200410T100000")
+BODIES = {"E1": E1, "E2": E2, "E3": E3, "T1": T1, "ETZ": ETZ, "FB2": FB2, "EF": EFALSY, "EFL": EFL}
 
 
 def cf(name, inner=""):
@@ -65,6 +67,10 @@ FILTERS = {
     "location-defined": cf("VCALENDAR", cf("VEVENT", pf("LOCATION"))),
     "priority-defined": cf("VCALENDAR", cf("VEVENT", pf("PRIORITY"))),
     "location-not-defined": cf("VCALENDAR", cf("VEVENT", pf("LOCATION", "<C:is-not-defined/>"))),
+    # a floating 10:00-11:00 event: in the server zone (UTC), and in a query that brings its own CALDAV:timezone (UTC+9)
+    "float-range-utc": cf("VCALENDAR", cf("VEVENT", tr("20200410T100000Z", "20200410T110000Z"))),
+    "float-range@tokyo-hit": (cf("VCALENDAR", cf("VEVENT", tr("20200410T010000Z", "20200410T020000Z"))), "Asia/Tokyo"),
+    "float-range@tokyo-miss": (cf("VCALENDAR", cf("VEVENT", tr("20200410T100000Z", "20200410T110000Z"))), "Asia/Tokyo"),
     "freebusy-range": cf("VCALENDAR", cf("VFREEBUSY", tr("20200311T000000Z", "20200312T000000Z"))),
 }
 
@@ -155,7 +161,7 @@ class C10Sys:
     def enabled_ops(self):
         ops = []
         for b in self.cfg.bodies:
-            nm = {"T1": "t.ics", "E3": "c.ics", "ETZ": "z.ics", "FB2": "f.ics", "EF": "e.ics"}.get(b, "a.ics")
+            nm = {"T1": "t.ics", "E3": "c.ics", "ETZ": "z.ics", "FB2": "f.ics", "EF": "e.ics", "EFL": "l.ics"}.get(b, "a.ics")
             ops.append(("put", nm, b))
         for nm in sorted(self.model):
             ops.append(("delete", nm))
@@ -169,7 +175,12 @@ class C10Sys:
             self.apply(tuple(op), check=False)
 
     def query(self, world, fname):
-        body = dav.calquery_body(FILTERS[fname], [dav.P_GETETAG])
+        f = FILTERS[fname]
+        if isinstance(f, tuple):
+            tzcal = "BEGIN:VCALENDAR\r\nVERSION:2.0\r\nPRODID:-//xv//EN\r\nBEGIN:VTIMEZONE\r\nTZID:%s\r\nEND:VTIMEZONE\r\nEND:VCALENDAR\r\n" % f[1]
+            body = dav.calquery_body(f[0], [dav.P_GETETAG]).replace(b"</C:calendar-query>", ("<C:timezone>%s</C:timezone></C:calendar-query>" % tzcal).encode())
+        else:
+            body = dav.calquery_body(f, [dav.P_GETETAG])
         if world is self.twin:
             with http.twin_context():
                 r = world.request("REPORT", self.base, dict(dav.XML_CT, Depth="1"), body)
@@ -245,14 +256,16 @@ def run(tier, workers=None):
                 C10Cfg(1, filters=["summary=alpha", "range-jan", "todo-range"], bodies=("E1", "E2", "T1")),
                 C10Cfg(0, seed_bad=True, filters=["vevent", "summary-defined"], bodies=("E1",)),
                 C10Cfg(0, filters=["range-after-paris", "freebusy-range", "range-jan"], bodies=("ETZ", "FB2", "E1")),
-                C10Cfg(1, filters=["location-defined", "priority-defined", "location-not-defined"], bodies=("EF", "E1"))]
+                C10Cfg(1, filters=["location-defined", "priority-defined", "location-not-defined"], bodies=("EF", "E1")),
+                C10Cfg(0, filters=["float-range-utc", "float-range@tokyo-hit", "float-range@tokyo-miss"], bodies=("EFL", "E1"))]
         depth = {0: 3, 1: 3}
     else:
         cfgs = [C10Cfg(0), C10Cfg(1), C10Cfg(2, filters=["vevent", "summary=beta", "range-feb", "todo-not-completed"]),
                 C10Cfg(None, filters=["vevent", "summary=beta", "range-feb"]), C10Cfg(0, seed_bad=True, bodies=("E1", "T1")),
                 C10Cfg(1, front="aio", filters=["summary=alpha", "range-feb", "summary+no-location"]),
                 C10Cfg(1, filters=["range-after-paris", "freebusy-range", "range-jan", "vevent"], bodies=("ETZ", "FB2", "E1")),
-                C10Cfg(0, filters=["location-defined", "priority-defined", "location-not-defined", "vevent"], bodies=("EF", "E1", "E2"))]
+                C10Cfg(0, filters=["location-defined", "priority-defined", "location-not-defined", "vevent"], bodies=("EF", "E1", "E2")),
+                C10Cfg(1, filters=["float-range-utc", "float-range@tokyo-hit", "float-range@tokyo-miss", "vevent"], bodies=("EFL", "E1", "ETZ"))]
         depth = {}
     tot = {"states": 0, "transitions": 0, "replays": 0, "requests": 0}
     per_cfg = []
@@ -289,5 +302,6 @@ def run(tier, workers=None):
     }
     return rep.finish("model_checking", cov, assumptions=[
         "reference = the implementation's own naive path on a second backend (threshold 10**6) over the same directory: a differential oracle, so defects of filter semantics (C11) cannot leak in",
+        "queries with their own CALDAV:timezone (UTC+9) against floating times, next to queries in the server zone (TZ=UTC in the harness)",
         "objects: single VEVENT, one resource with two VEVENTs (RRULE master + RECURRENCE-ID override), a VTODO, optionally an unparseable .ics committed with git",
     ])
